@@ -83,7 +83,7 @@ type Exec struct {
 	genLimit    time.Duration   // wall-clock limit for generating the conditions of one function (fail-closed when exceeded)
 	genStart    time.Time
 	genTicks    int
-	inInit      bool // executing package initialisers (globals.go)
+	inInit      bool          // executing package initialisers (globals.go)
 	genSlow     time.Duration // time spent so far in functions that ran into genLimit
 	genSlowMax  time.Duration // once that much was spent, further functions that get slow are cut after a tenth of genLimit
 	tids        map[string]int
